@@ -54,7 +54,14 @@ def cases(draw):
         base = st.one_of(st.sampled_from(stems).map(lambda s: re.escape(s) + '$'),
                          st.sampled_from(words))
         mods = draw(st.lists(st.one_of(base, base.map(lambda p: '!' + p)), min_size=1, max_size=2))
-    return {'tree': tree, 'roots': roots, 'mode': extra, 'pkg_roots': pkg_roots,
+    # a symlinked directory whose *name* is not an identifier or is an ignored one: discovery must not go through it
+    # (links with ordinary names would give the same file a second dotted name - not generated, see level_note)
+    link = None
+    if subdirs and draw(st.integers(0, 3)) == 0:
+        link = {'at': draw(st.sampled_from([''] + subdirs)), 'to': draw(st.sampled_from(subdirs)),
+                'name': draw(st.sampled_from(['zq-fixtures', 'node_modules', '__pycache__', '.git', '1zqlink', 'zq.link',
+                                              'CVS']))}
+    return {'tree': tree, 'roots': roots, 'mode': extra, 'pkg_roots': pkg_roots, 'link': link,
             'tests_pattern': draw(st.sampled_from(TESTS_PATTERNS)),
             'file_pattern': draw(st.sampled_from(FILE_PATTERNS)),
             'module': mods,
@@ -141,6 +148,14 @@ class Discover(Part):
         labels = []
         try:
             fstree.write_tree(case['tree'], base, case['create_seed'])
+            link = case.get('link')
+            if link:
+                at = os.path.join(base, link['at']) if link['at'] else base
+                to = os.path.join(base, link['to'])
+                lp = os.path.join(at, link['name'])
+                if not (at == to or at.startswith(to + os.sep)) and not os.path.lexists(lp):
+                    os.symlink(to, lp)
+                    labels.append('symlink-with-excluded-name')
             want, excluded, module_name = expected_files(case, base)
             args = ['--tests-pattern', case['tests_pattern'], '--test-file-pattern', case['file_pattern'],
                     '--list-tests']
@@ -225,7 +240,8 @@ class C14(Prop):
                   'reference predicate, each once, in an order that is identical for both enumeration orders (and equals '
                   'the sorted walk for a single root).')
     level_note = ('File stems are unique per tree so that every discovered file has a dotted name that resolves to it '
-                  '(a precondition of Python\'s import system); ASCII names, no symlinks; -s/--package not generated here (C03 does).')
+                  '(a precondition of Python\'s import system); ASCII names; symlinked directories only with names discovery must not follow (a followed link would give a file a '
+                  'second dotted name); -s/--package not generated here (C03 does).')
     rule = ('Hypothesis trees (depth <=3, 0..4 files and 0..3 sub-directories per directory from identifier/odd/ignored '
             'name pools), 6 tests-patterns x 5 file-patterns, root modes none/dup/nested/dup+nested/test-path-dup, '
             'optional -m patterns, two scandir permutations + creation permutation. Non-trivial = files excluded by >=2 '
